@@ -59,6 +59,18 @@ def make_docs(rng, n):
         pkg.body = [rand_para(rng, k)[0] for k in range(150)]
         data, parts = B.build(pkg)
         out.append((pkg, data, parts))
+    # a package whose main part is NOT well-formed XML: converting it raises (every time, the same way) — and must leave no trace:
+    # whatever is converted after it, or at the same time in another thread, converts as if it had never been there
+    import zipfile
+    pkg = gen_xml.Package()
+    pkg.body = []
+    good, _ = B.build(pkg)
+    buf = io.BytesIO()
+    with zipfile.ZipFile(io.BytesIO(good)) as zin, zipfile.ZipFile(buf, "w") as zout:
+        for name in zin.namelist():
+            zout.writestr(name, b"<w:document xmlns:w='http://schemas.openxmlformats.org/wordprocessingml/2006/main'><w:body><w:p>" + b"x" * 70000
+                          if name == "word/document.xml" else zin.read(name))
+    out.append((pkg, buf.getvalue(), None))
     return out
 
 
@@ -194,7 +206,7 @@ def run(ctx):
         nthreads = 8
         barrier = threading.Barrier(nthreads)
         results = {}
-        heavy = [(i, 0, "markdown") for i in range(ndocs - 3, ndocs)] + [(i, 0, "html") for i in range(ndocs - 3, ndocs)]
+        heavy = [(i, 0, "markdown") for i in range(ndocs - 4, ndocs - 1)] + [(i, 0, "html") for i in range(ndocs - 4, ndocs - 1)]
         my = [rng.sample(jobs, min(len(jobs), 40 if ctx.thorough else 12)) + heavy for _ in range(nthreads)]
         for lst_ in my:
             rng.shuffle(lst_)
@@ -243,7 +255,7 @@ def run(ctx):
                 fail("results differ under PYTHONHASHSEED=%s" % seed, {"api": "child interpreter", "seed": seed, "stderr": p.stderr[-300:]})
     # ---- the pure model agrees with every baseline (so all of the above equal a mathematical function of bytes and options)
     terms, metas = [], []
-    for i in range(ndocs - 3):
+    for i in range(ndocs - 4):
         for k in (0, 1, 2):
             opts = {"style_map": OPTION_SETS[k].get("style_map"), "include_default_style_map": OPTION_SETS[k].get("include_default_style_map", True),
                     "include_embedded_style_map": True, "ignore_empty_paragraphs": OPTION_SETS[k].get("ignore_empty_paragraphs", True),
